@@ -114,7 +114,7 @@ Proof.
       destruct (cb_idx_found s cs ps c0 Hc0) as [j Hj]. unfold cb_idx. rewrite Hj.
       apply find_from_Some in Hj. destruct Hj as [n [r [-> [Hn [_ Hpar]]]]]. simpl.
       rewrite inval_from_nth, Hn. simpl. eexists. split; [reflexivity|].
-      destruct (mem (0 + n) ps); simpl; congruence.
+      destruct (mem _ ps); simpl; rewrite Hpar; assumption.
 Qed.
 
 Definition out_ok (P : state -> Prop) (o : outcome) : Prop :=
@@ -135,18 +135,6 @@ Proof. apply Forall_forall. intros j H. apply ids_from_ge in H. lia. Qed.
 
 Lemma find_id_lt s c ps i : find_id s c ps = Some i -> i < length (rows s).
 Proof. intros H. apply find_from_lt in H. lia. Qed.
-
-(** the loop over the superseded candidates, as a function of the recursive call *)
-Fixpoint go_sup (rec : state -> content -> nat -> outcome) (s0 : state) (ps : list nat)
-         (s' : state) (l : list content) : outcome :=
-  match l with
-  | [] => Done s'
-  | c :: l' =>
-    match find_id s0 c ps with
-    | Some i => match rec s' c i with Done s'' => go_sup rec s0 ps s'' l' | o => o end
-    | None => go_sup rec s0 ps s' l'
-    end
-  end.
 
 Definition rt_tags g (tags : list content) := if dedupe g then nodupc tags else tags.
 Definition rt_parents g s e tags parents (update : bool) :=
@@ -172,15 +160,7 @@ Lemma record_tags_unfold g f s e tags parents update new :
     else commit_batch s (rt_tags g tags) ps
   end.
 Proof.
-  destruct tags as [|c0 tags]; [reflexivity|]. cbn [record_tags]. unfold rt_parents, rt_tags2, rt_tags.
-  cbv zeta. destruct (update || new); [|reflexivity].
-  set (ps := if update then _ else _). set (t2 := if skip_current g then _ else _).
-  generalize (filter (is_sup s ps) t2) as l. generalize s at 2 4 as s'.
-  intros s' l. 
-  match goal with |- match ?A with _ => _ end = match ?B with _ => _ end => assert (A = B) as -> end; [|reflexivity].
-  revert s'. induction l as [|c l IH]; intros s'; simpl; [reflexivity|].
-  destruct (find_id s c ps); [|apply IH].
-  destruct (record_tags g f s' e [c] [i] false true); try reflexivity. apply IH.
+  destruct tags as [|c0 tags]; reflexivity.
 Qed.
 
 Lemma rt_parents_valid g s e tags parents update :
@@ -220,4 +200,171 @@ Proof.
     destruct (commit_batch s1 _ ps); simpl in X |- *; try exact I;
       (destruct X as [X1 X2]; split; [assumption|eapply ext_trans; eassumption]).
   - apply commit_batch_LI; assumption.
+Qed.
+
+(* ------------------------------------------------------------------ commands and histories *)
+Lemma step_LI g s o : LI s -> out_ok (fun s' => LI s' /\ ext s s') (step g s o).
+Proof.
+  intros H. destruct o as [e tags|e tags|e pairs keys]; simpl.
+  - apply record_tags_LI; [assumption|constructor].
+  - apply record_tags_LI; [assumption|constructor].
+  - destruct pairs, keys; simpl; try (split; [assumption|apply ext_refl]);
+      (apply record_tags_LI; [assumption|apply ids_from_valid]).
+Qed.
+
+Lemma run_LI g ops : forall s s', LI s -> run g s ops = Some s' -> LI s'.
+Proof.
+  induction ops as [|o ops IH]; intros s s' H; simpl.
+  - now intros [= <-].
+  - assert (X := step_LI g s o H). destruct (step g s o) as [s1|s1|s1|]; simpl in X; try discriminate;
+      intros R; apply (IH s1 s'); try assumption; apply X.
+Qed.
+
+(** the tag edit graph: an edge from a superseded tag to the tag that supersedes it *)
+Definition edge (s : state) (p c : nat) : Prop := In (p, c) (edits s).
+Inductive path (s : state) : nat -> nat -> Prop :=
+  | path_one p c : edge s p c -> path s p c
+  | path_cons p m c : edge s p m -> path s m c -> path s p c.
+Definition acyclic (s : state) : Prop := forall x, ~ path s x x.
+
+Lemma LI_edge_lt s p c : LI s -> edge s p c -> p < c.
+Proof.
+  intros [W E] H. destruct (E _ _ H) as [r [H1 H2]]. specialize (W _ _ H1).
+  rewrite Forall_forall in W. now apply W.
+Qed.
+
+Lemma LI_acyclic s : LI s -> acyclic s.
+Proof.
+  intros H x P. assert (forall a b, path s a b -> a < b) as L.
+  { induction 1 as [p c E|p m c E _ IH]; [now apply (LI_edge_lt s)|].
+    apply (LI_edge_lt s) in E; [lia|assumption]. }
+  apply L in P. lia.
+Qed.
+
+(* ------------------------------------------------------------------ fuel *)
+Lemma filter_length_le' {A} (p : A -> bool) l : length (filter p l) <= length l.
+Proof. induction l; simpl; [lia|]. destruct (p a); simpl; lia. Qed.
+
+Lemma nodupc_acc_length seen l : length (nodupc_acc seen l) <= length l.
+Proof.
+  revert seen. induction l as [|c l IH]; intros seen; simpl; [lia|].
+  destruct (memc c seen); simpl; [specialize (IH seen)|specialize (IH (c :: seen))]; lia.
+Qed.
+
+Lemma rt_tags_length g tags : length (rt_tags g tags) <= length tags.
+Proof. unfold rt_tags. destruct (dedupe g); [apply nodupc_acc_length|lia]. Qed.
+
+Lemma rt_tags2_length g s e tags parents update : length (rt_tags2 g s e tags parents update) <= length tags.
+Proof.
+  unfold rt_tags2. destruct (skip_current g).
+  - etransitivity; [apply filter_length_le'|apply rt_tags_length].
+  - apply rt_tags_length.
+Qed.
+
+Lemma rt_tags2_single g s e c parents update :
+  rt_tags2 g s e [c] parents update = [c] \/ rt_tags2 g s e [c] parents update = [].
+Proof.
+  unfold rt_tags2, rt_tags. assert (nodupc [c] = [c]) as E by reflexivity.
+  destruct (dedupe g), (skip_current g); rewrite ?E; simpl; try tauto;
+    destruct (negb _); tauto.
+Qed.
+
+Lemma commit_batch_nil s ps : commit_batch s [] ps = Done s.
+Proof. reflexivity. Qed.
+
+Lemma commit_batch_length s cs ps :
+  match commit_batch s cs ps with
+  | OutOfFuel => False
+  | Done s' | DbError s' | CliError s' => length (rows s') <= length (rows s) + length cs
+  end.
+Proof.
+  destruct (commit_batch_cases s cs ps) as [-> | [-> | ->]]; try lia.
+  simpl. rewrite inval_from_length. unfold cb_rows1. rewrite app_length, map_length.
+  unfold cb_new_cs. assert (X := filter_length_le' (fun c => negb (exists_row s c ps)) cs). lia.
+Qed.
+
+Definition no_oof (bound : nat) (o : outcome) : Prop :=
+  match o with
+  | OutOfFuel => False
+  | Done s' | DbError s' | CliError s' => length (rows s') <= bound
+  end.
+
+Lemma walk_fuel g f : forall s e c i,
+  LI s -> i < length (rows s) -> length (rows s) - i + 1 <= f ->
+  no_oof (length (rows s) + 1) (record_tags g f s e [c] [i] false true).
+Proof.
+  induction f as [|f IH]; intros s e c i HL Hi Hf; [lia|].
+  rewrite record_tags_unfold. cbv zeta. unfold rt_parents. simpl orb. cbv iota.
+  destruct (rt_tags2_single g s e c [i] false) as [-> | ->].
+  - simpl filter. destruct (is_sup s [i] c) eqn:Es; simpl.
+    + unfold is_sup in Es. destruct (find_id s c [i]) as [j|] eqn:Ej; [|discriminate].
+      assert (Hj := find_id_lt _ _ _ _ Ej).
+      unfold find_id in Ej. apply find_from_Some in Ej. destruct Ej as [n [r [-> [Hn [_ Hp]]]]]. simpl in *.
+      destruct HL as [W E]. assert (X := W _ _ Hn). rewrite Hp in X. inversion X as [|? ? Hlt _]; subst.
+      assert (HL : LI s) by (split; assumption).
+      specialize (IH s e c n HL Hj ltac:(lia)).
+      destruct (record_tags g f s e [c] [n] false true); simpl in IH |- *; try assumption.
+    + assert (X := commit_batch_length s [c] [i]).
+      destruct (commit_batch s [c] [i]); simpl in X |- *; try assumption.
+  - simpl. lia.
+Qed.
+
+Lemma go_sup_fuel g f s e ps : forall l s' k,
+  LI s' -> ext s s' -> length (rows s') <= length (rows s) + k ->
+  length (rows s) + k + length l + 1 <= f ->
+  match go_sup (fun s' c i => record_tags g f s' e [c] [i] false true) s ps s' l with
+  | OutOfFuel => False
+  | Done s1 => LI s1 /\ ext s s1
+  | _ => True
+  end.
+Proof.
+  induction l as [|c l IHl]; intros s' k HL HE Hk Hf; simpl; [tauto|].
+  destruct (find_id s c ps) as [i|] eqn:Ei.
+  - assert (Hi := find_id_lt _ _ _ _ Ei). destruct HE as [LL HE'].
+    assert (X := walk_fuel g f s' e c i HL ltac:(lia) ltac:(simpl in Hf; lia)).
+    assert (V : valid_parents s' [i]) by (constructor; [lia|constructor]).
+    assert (Y := record_tags_LI g f s' e [c] [i] false true HL V).
+    destruct (record_tags g f s' e [c] [i] false true) as [s''|s''|s''|]; simpl in X, Y |- *; try exact I; try assumption.
+    destruct Y as [Y1 Y2]. apply (IHl s'' (S k)); try assumption.
+    + eapply ext_trans; [split; eassumption|assumption].
+    + lia.
+    + simpl in Hf. lia.
+  - apply (IHl s' k); try assumption. simpl in Hf. lia.
+Qed.
+
+Lemma record_tags_top_fuel g s e tags parents update new f :
+  LI s -> valid_parents s parents -> length (rows s) + length tags + 2 <= f ->
+  record_tags g (S f) s e tags parents update new <> OutOfFuel.
+Proof.
+  intros HL HV Hf. rewrite record_tags_unfold. destruct tags as [|c0 tags0]; [discriminate|].
+  set (tags := c0 :: tags0) in *. cbv zeta.
+  assert (commit_ok : forall s1 cs ps, commit_batch s1 cs ps <> OutOfFuel).
+  { intros s1 cs ps. destruct (commit_batch_cases s1 cs ps) as [-> | [-> | ->]]; discriminate. }
+  destruct (update || new); [|apply commit_ok].
+  set (ps := rt_parents g s e tags parents update).
+  set (t2 := rt_tags2 g s e tags parents update).
+  assert (X := go_sup_fuel g f s e ps (filter (is_sup s ps) t2) s 0 HL (ext_refl s) ltac:(lia)).
+  assert (length (filter (is_sup s ps) t2) <= length tags) as Hl.
+  { etransitivity; [apply filter_length_le'|apply rt_tags2_length]. }
+  specialize (X ltac:(lia)).
+  destruct (go_sup _ s ps s _); try discriminate; [apply commit_ok|contradiction].
+Qed.
+
+Lemma step_no_oof g s o : LI s -> step g s o <> OutOfFuel.
+Proof.
+  intros HL. destruct o as [e tags|e tags|e pairs keys]; simpl; unfold fuel_for.
+  - replace (length (rows s) + length tags + 3) with (S (length (rows s) + length tags + 2)) by lia.
+    apply record_tags_top_fuel; [assumption|constructor|rewrite map_length; lia].
+  - replace (length (rows s) + length tags + 3) with (S (length (rows s) + length tags + 2)) by lia.
+    apply record_tags_top_fuel; [assumption|constructor|rewrite map_length; lia].
+  - replace (length (rows s) + 1 + 3) with (S (length (rows s) + 1 + 2)) by lia.
+    destruct pairs, keys; try discriminate;
+      (apply record_tags_top_fuel; [assumption|apply ids_from_valid|simpl; lia]).
+Qed.
+
+Lemma run_total g ops : forall s, LI s -> exists s', run g s ops = Some s'.
+Proof.
+  induction ops as [|o ops IH]; intros s HL; simpl; [eauto|].
+  assert (X := step_LI g s o HL). assert (Y := step_no_oof g s o HL).
+  destruct (step g s o); simpl in X; try contradiction; apply IH; tauto.
 Qed.
